@@ -266,6 +266,44 @@ func c02(c *Ctx) {
 		}
 		return true
 	})
+	// N2e: Snapshot itself records the folded state before it hands the snapshot to raft: every return of a non-nil snapshot
+	// is dominated by a store into lastSnapshotState that is not inside a function literal (a store postponed to a callback
+	// runs — if at all — after the folded entries have already been deleted from the log copy)
+	{
+		inLit := func(n ast.Node) bool {
+			found := false
+			ast.Inspect(snap.Body(), func(m ast.Node) bool {
+				if fl, ok := m.(*ast.FuncLit); ok && fl.Pos() <= n.Pos() && n.End() <= fl.End() {
+					found = true
+				}
+				return true
+			})
+			return found
+		}
+		isStore := func(x *cfgx.Vertex) bool {
+			as, ok := x.Node.(*ast.AssignStmt)
+			if !ok || len(as.Lhs) != 1 || inLit(as) {
+				return false
+			}
+			ie, ok := ast.Unparen(as.Lhs[0]).(*ast.IndexExpr)
+			if !ok {
+				return false
+			}
+			se, ok := ast.Unparen(ie.X).(*ast.SelectorExpr)
+			return ok && astx.FieldSel(info, se) == lss
+		}
+		nRet := 0
+		for _, rv := range g.Returns() {
+			rsn := rv.Node.(*ast.ReturnStmt)
+			if len(rsn.Results) != 2 || isNilIdent(info, rsn.Results[0]) || inLit(rsn) {
+				continue
+			}
+			nRet++
+			r.Check(g.DominatedBy(rv.ID, isStore), "C02.N2", name, "the folded state is recorded before the snapshot is handed out", c.P.Pos(rsn.Pos()), "lastSnapshotState[…] = state dominates the return (outside function literals)",
+				"Snapshot returns a snapshot without having recorded the folded state as the base of the next compaction (or records it only in a callback): the folded entries are already gone from the log copy, so the next snapshot starts from an older state and loses them")
+		}
+		r.Check(nRet >= 1, "C02.N2", name, "snapshot-returning exits found", c.P.Pos(snap.Node().Pos()), itoa(nRet), "Snapshot has no return of a non-nil snapshot")
+	}
 	// N2d: the clean-up of older recorded states happens before the new state is recorded: no delete(lastSnapshotState, …)
 	// is reachable after the store, and none is deferred (a deferred clean-up runs after the store and removes the entry
 	// just recorded, so the next snapshot starts from a stale base state)
@@ -626,6 +664,18 @@ func (c *Ctx) c02Restore() {
 		{"fresh IRC server created", assignsGlobalFrom("ircServer", "ircserver", "NewIRCServer"), "the snapshot is loaded on top of the old server state instead of a fresh server"},
 		{"fresh output stream created", assignsGlobalFrom("outputStream", "outputstream", "NewOutputStream"), "the output stream is not recreated: old output survives the restore"},
 		{"new state published to the API", func(v *cfgx.Vertex) bool {
+			// a deferred ReplaceState(ircServer, …) evaluates its arguments where the defer statement stands — before the
+			// fresh objects exist — and publishes the OLD (closed) ones at the end: only a plain call counts, and only one
+			// that comes after the three creations
+			if _, isDefer := v.Node.(*ast.DeferStmt); isDefer {
+				return false
+			}
+			for _, mk := range [][2]string{{"raftstore", "NewLevelDBStore"}, {"ircserver", "NewIRCServer"}, {"outputstream", "NewOutputStream"}} {
+				mk := mk
+				if !g.DominatedBy(v.ID, func(x *cfgx.Vertex) bool { return x.Node != nil && x.ID != v.ID && callNamed(mk[0], mk[1])(x) }) {
+					return false
+				}
+			}
 			for _, call := range astx.Calls(v.Node, false) {
 				if se, ok := ast.Unparen(call.Fun).(*ast.SelectorExpr); ok && se.Sel.Name == "ReplaceState" {
 					return true
@@ -911,6 +961,43 @@ func (c *Ctx) c02Stream(snap *load.FuncInfo) {
 	}
 	r.Check(okState && b64(pi, ps.Body(), "EncodeToString") && decodes, "C02.N5", ps.Name(), "state record encoding agrees", c.P.Pos(ps.Node().Pos()), "robust.State + base64.StdEncoding both ways",
 		"Persist and decodeProtobuf disagree on how the state record is typed/encoded")
+	// every entry the iterator yields is written to the sink: no path from the top of the copy loop's body back to the loop
+	// header avoids writeLenPrefixed(sink, …) (a filter here drops entries that are neither in the folded state nor in the log)
+	if wl != nil {
+		ast.Inspect(ps.Body(), func(n ast.Node) bool {
+			fs, ok := n.(*ast.ForStmt)
+			if !ok || len(fs.Body.List) == 0 {
+				return true
+			}
+			writes := false
+			for _, call := range astx.Calls(fs.Body, false) {
+				if fn := astx.Callee(pi, call); fn == wl.Obj {
+					writes = true
+				}
+			}
+			if !writes {
+				return true
+			}
+			bodyStart := pg.VertexOf(fs.Body.List[0])
+			isWrite := func(x int) bool {
+				return containsCall(pi, pg.V[x], func(fn *types.Func, _ *ast.CallExpr) bool { return fn == wl.Obj })
+			}
+			skipped := false
+			if bodyStart >= 0 && !isWrite(bodyStart) {
+				avoid := pg.Reach(bodyStart, isWrite, nil)
+				for _, v := range pg.V {
+					for _, e := range v.Succ {
+						if e.To == bodyStart && avoid[v.ID] {
+							skipped = true
+						}
+					}
+				}
+			}
+			r.Check(!skipped, "C02.N5", ps.Name(), "every retained entry is written to the snapshot", c.P.Pos(fs.Pos()), "no path through the copy loop avoids writeLenPrefixed",
+				"Persist can skip entries of the retained range (a filter or `continue` in the copy loop): such an entry is in neither the folded state nor the restored log, its effect and its output are lost on every node that restores the snapshot")
+			return true
+		})
+	}
 	// retained range
 	first := c.P.Field("main", "robustSnapshot", "firstIndex")
 	last := c.P.Field("main", "robustSnapshot", "lastIndex")
